@@ -516,6 +516,12 @@ func TestVerif_C30(t *testing.T) {
 					if acc, ev := mon.run(recv, c); ev && !acc {
 						r.Nontrivial("self" + string(self[73:85]))
 					}
+					// the same message evaluated by another node on behalf of the receiver's identity (how a relayer
+					// checks consumer tokens): "the receiver" is the identity being authenticated as
+					ca := &vC30Case{class: "self-message-authenticated-by-another-node", msg: self, recipient: recv.node.IdForNetwork, timeout: timeout, clock: tb, legit: true, sender: recv, base: baseKey}
+					if acc, ev := mon.run(third, ca); ev && !acc {
+						r.Nontrivial("selfas" + string(self[73:85]))
+					}
 					// same key running on another network, addressed to the receiver
 					twin := vC30ActorFromKey(recv.priv, otherNet, !recv.node.isRelayer, "twin")
 					tm := mon.build(twin, recv.node.IdForNetwork, tb)
